@@ -54,12 +54,20 @@ func Run(tier string) int {
 			mini = append(mini, a)
 		}
 	}
+	// quick: the three-leaf families use slightly smaller alphabets than thorough so that the tier
+	// finishes within its budget on a loaded machine (an unfinished run is reported as not exhaustive)
+	var mini9 []ref.AtomDef
+	for _, a := range mini {
+		if a.Text != "protocol:tcp" {
+			mini9 = append(mini9, a)
+		}
+	}
 	fams := []family{
 		{1, 1, alphabet, "1 leaf, <=1 not, full alphabet"},
 		{2, 1, alphabet, "2 leaves, <=1 not, full alphabet"},
 		{2, 2, core, "2 leaves, <=2 nots, core alphabet"},
-		{3, 0, core[:min(len(core), 13)], "3 leaves, no not, 13 core atoms"},
-		{3, 1, mini, "3 leaves, <=1 not, mini alphabet"},
+		{3, 0, core[:min(len(core), 11)], "3 leaves, no not, 11 core atoms"},
+		{3, 1, mini9, "3 leaves, <=1 not, 9 mini atoms"},
 	}
 	if tier == "thorough" {
 		fams = []family{
